@@ -562,9 +562,9 @@ func GenCase(r *common.Rng) Case {
 	cpdefs := []string{}
 	for k := 0; k < ncp; k++ {
 		d := "%meta cpdef " + cpNames[k] + " romcode:" + secs[cpSec[k]].name
-		if r.Chance(1, 6) {
+		if r.Chance(1, 5) {
 			// a user-defined key makes the processor a parameterised one: it runs a re-rendered copy of its section (labels,
-			// line-level metadata and all), and the section it named is removed
+			// line-level metadata and all); the section it named stays when a processor without parameters runs it too
 			d = "%meta cpdef " + cpNames[k] + " " + pick(r, []string{"gain:3, ", "first:40, ", "mode_x:r1, "}) + "romcode:" + secs[cpSec[k]].name
 			if r.Bool() {
 				d = "%meta cpdef " + cpNames[k] + " romcode:" + secs[cpSec[k]].name + pick(r, []string{", gain:3", ", first:40", ", tag:0"})
